@@ -125,6 +125,7 @@ func (p *Points) point(dir, name string) {
 		p.fsLock(dir).Lock()
 	case "snap.published":
 		defer p.fsLock(dir).Unlock()
+		p.rc.snapMeta(dir)
 	}
 
 	p.mu.Lock()
